@@ -426,6 +426,7 @@ func runC08(c *Ctx, r *Report) {
 	c08R6(c, r, "C08.R6")
 	c02R6(c, r, "C08.R8") // a compiled handler chain cached across connections would capture one connection's continuation
 	c10R5(c, r, "C08.R9") // the shared round-robin position advances by one atomic read-modify-write per probe
+	c08SharedAppend(c, r, "C08.R14")
 	c08QuicAddr(c, r, "C08.R11")
 	c09R6(c, r, "C08.R12")     // a UDP client never reads another client's datagram: queued datagram records do not alias
 	c17Handle(c, r, "C08.R10") // per-connection state of a handler (the throttle's own limiter) is built per connection, only the handler-wide limiter is shared
@@ -1010,6 +1011,11 @@ func runC09(c *Ctx, r *Report) {
 	c09R8(c, r, "C09.R8")
 	c09R9(c, r, "C09.R9")
 	c09Reader(c, r, "C09.R10")
+	nilFieldContradictions(c, r, "C09.R11", 3, func(fn *ssa.Function) bool { // the server loop and the virtual connection: a nil timer ends the loop
+		return fn.Pkg != nil && fn.Pkg.Pkg.Path() == modPath+"/layer4"
+	})
+	c05R7(c, r, "C09.R12")  // setting the deadline of a virtual connection never blocks (the association's handler, its queue and then the server loop would wait with it)
+	c05UDPDeadline(c, r, "C09.R13") // ... and arms the timer that wakes a waiting Read
 }
 
 func c09R1(c *Ctx, r *Report, rule string) {
